@@ -944,13 +944,34 @@ func (ndb *nodeDB) getLatestVersion() (bool, int64, error) {
 	if err != nil {
 		return false, 0, err
 	}
-	defer itr.Close()
+	defer func() { itr.Close() }()
 
-	if itr.Valid() {
+	for itr.Valid() {
 		k := itr.Key()
 		var nk []byte
 		nodeKeyFormat.Scan(k, &nk)
-		latestVersion = GetNodeKey(nk).version
+		nodeKey := GetNodeKey(nk)
+		// A version exists once its root entry (version, 1) is stored, which a
+		// commit writes last. Nodes without it are left over from a commit that
+		// was interrupted: they are not a version and are skipped.
+		if nodeKey.nonce != 1 {
+			has, err := ndb.hasVersion(nodeKey.version)
+			if err != nil {
+				return false, 0, err
+			}
+			if !has {
+				itr.Close()
+				itr, err = ndb.db.ReverseIterator(
+					nodeKeyPrefixFormat.KeyInt64(int64(1)),
+					nodeKeyPrefixFormat.KeyInt64(nodeKey.version),
+				)
+				if err != nil {
+					return false, 0, err
+				}
+				continue
+			}
+		}
+		latestVersion = nodeKey.version
 		ndb.resetLatestVersion(latestVersion)
 		return true, latestVersion, nil
 	}
